@@ -490,8 +490,8 @@ def g_submodule_clash(rnd):
     for i, sn in enumerate(subs):
         body = ""
         if "typedef" in kinds:
-            body += "  typedef t { type %s; }\n" % ["string { length 1..%d; }" % (i + 3), "int%d { range 0..%d; }" % (8 << (i % 2), i + 5),
-                                                 "boolean"][i % 3]
+            body += "  typedef t { type %s }\n" % ["string { length 1..%d; }" % (i + 3), "int%d { range 0..%d; }" % (8 << (i % 2), i + 5),
+                                                "boolean;"][i % 3]
         if "grouping" in kinds:
             body += "  grouping g { leaf from_%s { type string; } }\n" % sn
         if "identity" in kinds:
@@ -766,6 +766,14 @@ def cli_run(tmp, fmt, names):
     return dict(rc=p.returncode, stdout=p.stdout.decode("utf8", "replace"), stderr=p.stderr.decode("utf8", "replace"))
 
 
+def cli_view(out, permuted):
+    """what is compared: everything; but the command prints the errors of reading a file as it goes through its
+    arguments, so for permuted arguments the lines of stderr are compared as a multiset"""
+    if not permuted:
+        return out
+    return dict(out, stderr=sorted(out["stderr"].split("\n")))
+
+
 def cli_case(files, rnd, k, max_perms, formats=("tree", "types")):
     """returns (invocations, stdout seen, None or (fmt, order_a, order_b, out_a, out_b))"""
     tmp = tempfile.mkdtemp(prefix="c05cli-")
@@ -784,7 +792,7 @@ def cli_case(files, rnd, k, max_perms, formats=("tree", "types")):
                 printed = printed or bool(out["stdout"].strip())
                 if ref is None:
                     ref = (o, out)
-                elif out != ref[1]:
+                elif cli_view(out, o != ref[0]) != cli_view(ref[1], o != ref[0]):
                     return n, printed, (fmt, ref[0], o, ref[1], out)
         return n, printed, None
     finally:
